@@ -1010,6 +1010,11 @@ func vrfTranscript(w *World, pth *ssa.Function) (hasH1, hasPK, hasVRF bool, wher
 			if a, ok := bind[x]; ok {
 				walk(a)
 			}
+			if x == pth.Params[2] {
+				// the proof bytes reach the transcript without a curve operation in between (e.g. through a helper that
+				// splits the proof into its parts): the scalars s and t only ever enter through ScalarMult / ScalarBaseMult
+				hasVRF = true
+			}
 		case *ssa.Call:
 			o := calleeObj(x)
 			if o != nil && curveOps[o.Name()] {
